@@ -63,6 +63,7 @@ class Opts:
         self.backward_ann = False  # main thread carries '## backward ##' annotations (not nested in each other)
         self.force_second_thread = False
         self.first_op_children = False  # the first file entry may enclose other calls
+        self.unrounded = False  # one case in five: stamps scaled to quarter microseconds and loaded with HTA_DISABLE_NS_ROUNDING=1
         self.fractional_stamps = False  # one case in four is written with sub-microsecond stamps (as current Kineto does): every
         # complete event [T, T+D] is widened to [T-a, T+D+b], a, b in {0, .25, .5, .75}, so the loader's inward rounding gives T, D back
         self.python_frames = False  # with_stack=True: python_function events wrap operators (host events without graph nodes)
@@ -557,5 +558,10 @@ def sim_case(draw, o: Optional[Opts] = None, max_ranks: int = 2, same_steps: boo
         renumber_ranks(draw, ranks)  # the loaded ranks need not be 0..n-1
     from hv.hta_io import prelude_strategy
 
-    return {"ranks": ranks, "fmt": pick(draw, ["json", "gz"]), "mp": pick(draw, [False] * 5 + [True]),
+    case = {"ranks": ranks, "fmt": pick(draw, ["json", "gz"]), "mp": pick(draw, [False] * 5 + [True]),
             "prelude": draw(prelude_strategy()), "shared_corr": bool(shared_corr), "fractional_stamps": fractional}
+    if o.unrounded and not fractional and pick(draw, [True, False, False, False, False]):
+        from hv.gen.files import scale_to_sub_microsecond
+
+        scale_to_sub_microsecond(case)
+    return case
